@@ -118,7 +118,11 @@ class CellMonitor:
 
         def remove_cell(self, atom):
             r = mon.rec(atom)
-            was = getattr(atom, "cell", None)
+            # "was it registered?" from the monitor's own record of add/remove calls, not
+            # from atom.cell (an implementation may keep the key elsewhere)
+            was = getattr(atom, "cell", None) if r.reg is None else (r.reg, "registered")
+            if r.reg is not None and r.reg != id(self):
+                was = None  # registered in an older map instance: a no-op for this one
             out = o_remove(self, atom)
             s = mon.site()
             if was is None:
